@@ -103,6 +103,8 @@ def _drive_files(args):
     out = []
     for tid in ids:
         r = drv.rng(seed, 'c06file', cfgspec, codec, tid)
+        if tid % 3 == 0:
+            drv.hazard(r)
         blocked = bool(tid & 1)
         n = r.choice((1, 2, 3, 7, 15, 40)) if tid % 11 else r.choice((150, 400))
         msgs = []
